@@ -35,6 +35,14 @@
      one they hold (DelAbsent, no change).  Which keys are "next to" each other is the harness's key chain: besides
      the plain one (integers with the halves between them) chains of integers and floats around +-2^31, 2^32,
      2^53, 2^63 where neighbouring keys differ by 1 and are told apart only by an exact comparison.
+   - sessions (added after seeding round 6): an input can FAIL inside a call - its deadline expires, it is cancelled, the
+     depth limit is hit, an ordinary error - after the call changed its own parameters; the inputs that follow are
+     evaluated in the session's scope again.  Failed(x, y): the call is f(x) for a function whose parameter is NAMED y
+     (one of the session's variables), which appends to its parameter and assigns its first element before it fails.
+     FailedLib: the failing call is one of the library's own grol-written functions (keys, log2, printf ..), whose frame
+     does not hang off the session's globals.  Nothing changes at the value level.  RestoreOnFailure = FALSE: the session
+     goes on in the frame of the call that failed (y is that call's parameter; in a library frame no variable of the
+     session is in scope).  How the call fails is the harness's choice of source form.
    Kind also switches off the operations that have no form for the other kind (Concat for maps; Overwrite, Insert,
    DelAbsent for arrays).
 
@@ -48,6 +56,7 @@ CONSTANTS Vars,          \* e.g. {"a", "b", "c"}
           Small,         \* threshold of the model (code: 8); sizes are scaled in the harness
           MaxOps, CopyOnWrite, CopyOnAppend,
           OwnFrames,     \* TRUE: every call creates its own parameter bindings (the code); FALSE: see Frames
+          RestoreOnFailure, \* TRUE: after an input failed inside a call the session is in its own scope again; FALSE: see Failed
           Kind,          \* "arr" or "map": which operations exist
           EmitOn
 
@@ -214,6 +223,25 @@ Overwrite(x, y, which) ==
                 /\ bind' = [bind EXCEPT ![y] = [id |-> Len(stores) + 1, len |-> bind[x].len]]
   /\ hist' = Append(hist, [op |-> "overwrite", x |-> x, y |-> y, which |-> which])
 
+\* an input that fails inside f(x), f's parameter being named y, after f did  y = y + v; y[first] = v
+Failed(x, y) ==
+  /\ UNCHANGED val
+  /\ IF RestoreOnFailure
+     THEN UNCHANGED <<bind, stores>>
+     ELSE LET m == [Append(Read(bind[x]), Fresh) EXCEPT ![1] = Fresh]
+          IN /\ stores' = Append(stores, NewStore(m))
+             /\ bind' = [bind EXCEPT ![y] = [id |-> Len(stores) + 1, len |-> Len(m)]]
+  /\ hist' = Append(hist, [op |-> "fail", x |-> x, y |-> y])
+
+\* an input that fails inside a function of the library (called directly, or by a function of the session)
+FailedLib ==
+  /\ UNCHANGED val
+  /\ IF RestoreOnFailure
+     THEN UNCHANGED <<bind, stores>>
+     ELSE /\ stores' = Append(stores, NewStore(<<>>))
+          /\ bind' = [v \in Vars |-> [id |-> Len(stores) + 1, len |-> 0]]
+  /\ hist' = Append(hist, [op |-> "faillib"])
+
 Emit == EmitOn => EmitLine(ToJson([h |-> hist', val |-> val']))
 
 Next ==
@@ -229,6 +257,8 @@ Next ==
      \/ \E x, y \in Vars : Frames(x, y)
      \/ Kind = "map" /\ \E x \in Vars, w \in {1, 2, 3} : Insert(x, w)
      \/ Kind = "map" /\ \E x \in Vars, w \in {1, 2} : DelAbsent(x, w)
+     \/ \E x, y \in Vars : Failed(x, y)
+     \/ FailedLib
   /\ Emit
 
 Spec == Init /\ [][Next]_vars
